@@ -113,7 +113,7 @@ impl Property for C11 {
         ]
     }
     fn required_labels(&self, _t: Tier) -> Vec<&'static str> {
-        vec!["recent-source-date", "multi-owner", "signed", "source-date-zoned", "mtime-after-source-date", "mtime-before-source-date"]
+        vec!["source-date-set-after-files", "recent-source-date", "multi-owner", "signed", "source-date-zoned", "mtime-after-source-date", "mtime-before-source-date"]
     }
     fn phases(&self, tier: Tier) -> Vec<Phase<C11Case>> {
         vec![
@@ -132,11 +132,12 @@ impl Property for C11 {
             },
             Phase::Random {
             name: "rebuilds",
-            cases: tier.pick(240, 4_000),
+            cases: tier.pick(240, 12_000),
             strat: Arc::new(|| {
                 (config_any(CfgParams { max_files: 8, sizes: size_small(), comp: comp_fast(), sign_prob: 0.3, file_kinds: true, force_large_prob: 0.05, rich_meta: true }), 1_000_000_000u32..1_700_000_000, any::<u64>())
                     .prop_map(|(mut cfg, sd, salt)| {
                         cfg.source_date = Some(sd);
+                        cfg.setters_last = salt % 2 == 1;
                         // a third of the cases pass the same instant as a zoned chrono DateTime
                         cfg.source_date_zone = match salt % 9 {
                             0 => Some(7200),
@@ -211,6 +212,9 @@ impl Property for C11 {
         }
         if cfg.source_date_zone.is_some() {
             o.label("source-date-zoned");
+        }
+        if cfg.setters_last && !cfg.files.is_empty() {
+            o.label("source-date-set-after-files");
         }
         if owners.len() >= 2 || cfg.signer.is_some() {
             o.nontrivial_key(fnv1a(serde_json::to_string(cfg).unwrap_or_default().as_bytes()));
